@@ -339,8 +339,12 @@ class C18(Prop):
     call = {'args': list(call['args']), 'kwargs': [list(kv) for kv in call['kwargs']]}
     names = sig_names(sig)
     k = rng.below(7)
-    if k == 0:      # too many positionals
-      call['args'] = call['args'] + [rng.below(10) for _ in range(len(sig['pos']) - len(call['args']) + rng.randint(1, 2))]
+    if k == 0:      # too many positionals (must not spill into keyword-only parameters)
+      call['args'] = call['args'] + [rng.below(10) for _ in range(
+          len(sig['pos']) - len(call['args']) + rng.randint(1, 1 + len(sig['kwonly'])))]
+      if rng.chance(0.6):    # ... also when the keyword-only ones are not given by keyword
+        kwn = [p[0] for p in sig['kwonly']]
+        call['kwargs'] = [kv for kv in call['kwargs'] if kv[0] not in kwn or rng.chance(0.3)]
     elif k == 1 and call['args']:    # duplicate between positional and keyword
       n = sig['pos'][rng.below(min(len(call['args']), len(sig['pos'])))][0] if sig['pos'] else 'a'
       call['kwargs'] = [kv for kv in call['kwargs'] if kv[0] != n] + [[n, rng.below(10)]]
@@ -407,6 +411,11 @@ class C18(Prop):
       call = self.gen_valid_call(rng, sig, partial=0.15 if rng.chance(0.3) else 0.0)
       if rng.chance(0.35):
         call = self.perturb(rng, sig, call)
+      elif rng.chance(0.15):
+        # arity pattern: more positionals than positional parameters, keyword-only ones partly omitted
+        over = rng.randint(1, 1 + len(sig['kwonly']))
+        call = {'args': [rng.below(10) for _ in range(len(sig['pos']) + over)],
+                'kwargs': [[n, rng.below(10)] for n, _ in sig['kwonly'] if rng.chance(0.4)]}
       case['mode'] = 'direct'
       case['c1'] = dict(call, override=False, ignore=False)
       return case
@@ -639,15 +648,23 @@ class C18(Prop):
       rt = pg.from_json(obj.to_json())
       obs['json_init_args'] = canon_init_args(rt, missing)
       obs['json_call0'] = outcome(lambda: rt(), sig)
+      obs['json_sets'] = [sorted(rt.specified_args), sorted(rt.default_args), sorted(rt.non_default_args)]
     except Exception as e:   # pylint: disable=broad-except
       obs['json_init_args'] = 'raises:' + type(e).__name__
       obs['json_call0'] = {'err': 'roundtrip:' + type(e).__name__}
+      obs['json_sets'] = None
+    # the model also predicts the round trip and the clone (Functor.jsonRoundTrip / Functor.clone)
+    model['json_init_args'] = obs['json_init_args']
+    model['json_call0'] = obs['json_call0']
+    if obs['json_sets'] is not None:
+      model['json_specified'], model['json_default'], model['json_nondefault'] = obs['json_sets']
+    model['clone_call'] = obs['clone_call']
     return {'model': model, 'obs': obs}
 
   def compare(self, case, impl_out, model_out):
     a = impl_out['model']
     b = dict(model_out)
-    for k in ('specified', 'default', 'nondefault'):
+    for k in ('specified', 'default', 'nondefault', 'json_specified', 'json_default', 'json_nondefault'):
       if k in b:
         b[k] = sorted(b[k])
     keys = set(a) | set(b)
